@@ -106,6 +106,6 @@ def run(rep, tier):
     rule_save_order(rep, ["Textgrid.save"])
     # 'boundaries unchanged': every time is written exactly
     from . import textrules as R
-    rep.rule("C-exact / C-numslot", "boundaries are written exactly: repr or the compared integer (tolerance <= 1e-14), every numeric slot through numToStr (shared with C01/C02)")
+    rep.rule("C-exact / W-doc", "boundaries are written exactly: numToStr is repr or the compared integer (tolerance <= 1e-14), and in the emitted text every time is such a numeral, free-standing and in its place (shared with C01/C02)")
     R.rule_exact_formatter(rep)
-    R.rule_numeric_slots(rep)
+    R.rule_written_document(rep, tier)
